@@ -9,27 +9,37 @@ LAYER2_PROGRAMS = ["pkey", "skey", "x509dec", "x509min", "pem"]
 HS_PROGRAMS = ["hsc", "hss"]
 
 META = {
- "level_text": "Layered, partial.  (1) E4: for each of the seven T0 programs a linear stack-effect system over the decoded bytecode (per-native effects PROVED by CBMC on the extracted native words, composed over calls by per-word summaries) is decided by z3: no execution moves the data / return stack pointer outside dp_stack / rp_stack (sizes from the real context types), without any bound on the input. (2) E2 + CBMC: every native word of the five decoder programs (and the handshake natives listed as covered) executed from ANY VM/context state under the call-site preconditions the bytecode establishes: no pointer/bounds/overflow/shift failure, every context-offset operand and every string-function region stays inside the context FIELD it starts in, loops terminate within bounds that are linear in the chunk length. (3) C entry points with symbolic input (RSA public-key length gates). (4) status consistency of the key decoders after any native. The extraction of natives is re-validated on every run against the real interpreter (translation validation on the repository's own certificates/keys/PEM files).",
- "level_note": "Trusted: CBMC, z3, goto-cc/gcc/clang front ends; the E2 extraction is differentially validated, not proved.  Whole-decoder runs on long inputs and the T0-level logic of the handshake are outside.",
+ "level_text": "Layered, partial.  (1) E4: for each of the seven T0 programs (pkey/skey/x509 decoders, x509_minimal, pemdec, ssl_hs_client, ssl_hs_server) a linear stack-effect system over the decoded bytecode (per-native effects PROVED by CBMC on the extracted native words for every pre-state, composed over calls by per-word summaries; return stack likewise) is decided by z3: no execution moves the data / return stack pointer outside dp_stack / rp_stack (sizes taken from the real context types with sizeof), without any bound on the input; recursion and value-dependent stack words (pick) are detected (none recursive; pick only with literal arguments). (2) E2 + CBMC: EVERY native word of all seven programs (326 words) executed from ANY VM/context state under the call-site preconditions the bytecode establishes: no pointer/bounds/overflow/shift failure, every stack access in range, every context-offset operand and every string-function region stays inside the context FIELD it starts in (intra-structure overflow), loops terminate within bounds linear in the chunk length; per-program context invariants are inductive. (3) The push/append entry points refuse to resume the coroutine once err != 0 (pushgate-*), which is the assumption under which (1) treats a failing yield as terminal. (4) literal capacity audit: every size literal of the bytecode fits the buffer whose address literal it is used with. (5) status consistency of the key decoders after any native (error xor result). The E2 extraction is re-validated on every run against the real interpreter (translation validation on the repository's certificates, keys, PEM files and in-memory TLS handshakes).",
+ "level_note": "Trusted: CBMC, z3, goto-cc/gcc/clang front ends; the E2 extraction is differentially validated, not proved.  C entry points named by the property that are decided elsewhere: ECDSA converters (C11 atr-*/rta-*), RSA public-key gates (C10 pubgate-*), engine record gate (C06), record layers (C02/C16/C20).  Whole-decoder runs on long inputs and the T0-level logic of the handshake are outside.",
  "technique": "bounded symbolic model checking (CBMC/SAT) of extracted native words from an arbitrary symbolic state + SMT (z3) stack-effect system over the decoded T0 bytecode + translation validation of the extractor",
  "assumptions": [
-  "stack accesses of a native are in range at its call sites: this is what the E4 system proves (layer 2 ASSUMEs it per access, layer 1 proves it per call site)",
-  "a native path that yields (T0_CO) with err != 0 is never resumed (E4 'no resume after fail' mode): enforced by xm_append for x509_minimal and by the engine for the handshake programs; NOT enforced by br_pkey_decoder_push / br_skey_decoder_push / br_x509_decoder_push (reported as a finding; E4 is also run in 'resume' mode for these)",
-  "hbuf/hlen = any sub-region (possibly empty) of an 8-byte chunk; NULL hbuf with hlen == 0 (state before the first push) not modelled",
-  "address operands (addr[,len]) of set8/16/32, get8/16/32, read-blob-inner, blobcopy, eqblob lie in a region the bytecode can name: every offsetof() literal of the code block; extent = the size literal the bytecode uses next to it (derived: key_data, pkey_data, cert_sig, client_suites) or the rest of the field (stated: pad, hash buffers, scalars)",
-  "top operand of a native whose every call site is preceded by a literal is one of those literals (mechanically collected)",
-  "x509_minimal: dn_hash_impl = stub hash class with 1..64 output bytes; br_multihash_init/update/out stubbed at the link seam (out writes <= 64 bytes); exactly one static trust anchor (DN and key parts <= 8 bytes), optional dynamic anchor callback returning NULL or an anchor with a 64-byte hashed DN; irsa/iecdsa/itime = contract stubs or NULL; <= 1 name element (8-byte buffer, well-formed 12-byte OID); server_name NULL or <= 7 characters; context invariant: cert_sig_len <= sizeof cert_sig, cert_sig_hash_len <= 64, cert_sig_hash_oid + cert_sig_hash_len <= sizeof t0_datablock, EE key pointers inside ee_pkey_data (assumed before, checked after every native); EE key parts <= 12 bytes when compared with an anchor",
-  "x509_decoder: append_dn/append_in = NULL or a stub that only reads the region it is given",
-  "pem: dest = NULL or a stub that only reads; invariant ptr < sizeof buf assumed before and checked after",
-  "string functions inside natives are abstracted: region checks (inside the object, inside the context field the region starts in) + havoc of the destination",
+  "stack depth on entry to a native leaves room for its need / peak (proved per native by CBMC, established for every call site by the E4 system); inside the native every stack access is CHECKED",
+  "a native path that yields (T0_CO) with err != 0 (handshake programs: with the engine closed) is never resumed: proved for br_pkey/skey/x509_decoder_push and xm_append by the pushgate-* queries, for the engine by C06; `fail` sites: the operand is a non-zero literal or guarded by `dup; jump-if-not` (checked on the bytecode, dup proved by CBMC)",
+  "hbuf/hlen (hbuf_in/hlen_in, hbuf_out/hlen_out) = any sub-region (possibly empty) of an 8-byte chunk; NULL hbuf with hlen == 0 (state before the first push) not modelled",
+  "address operands of set8/16/32, get8/16/32: exactly the offsetof() literals found at their call sites; computed addresses (and the operands of read-blob-inner, blobcopy, eqblob, memcpy, memcmp, bzero, mkrand, read-chunk-native, write-blob-chunk) lie in an array region the bytecode can name: address literal + the size literal the bytecode uses next to it (derived: key_data, pkey_data, cert_sig, client_suites) or the rest of the field (stated: pad, hash buffers, randoms, session id, ...); read-blob-inner: address 0 or a non-empty region (both call-site shapes checked on the bytecode, over proved by CBMC)",
+  "top operand of a native whose every call site is preceded by a literal is one of those literals (mechanically collected; includes eqOID offsets, error codes, pick depths)",
+  "stated call-site preconditions (not derived): shift counts 0..31; data-get8 index inside t0_datablock; element lengths handed to set-rsa-key / copy-*-pkey / do-*-vrfy bounded by the key_data / pkey_data length literal; copy-name-element offset = -1 or < num_name_elts; values stored into cert_sig_len (<= BR_X509_BUFSIZE_SIG), cert_sig_hash_oid (+64 inside the data block), cert_sig_hash_len (<= 64), ecdhe_point_len (<= 133); handshake: lengths of data in the pad <= sizeof pad, hash identifiers 0/2..6, PRF hash SHA-256/384, ALPN index < protocol_names_num, key type of the validated peer key as required by the negotiated suite, verifier / EC implementation configured for the negotiated suite, curve identifiers <= 31",
+  "x509_minimal: dn_hash_impl = stub hash class with 1..64 output bytes; br_multihash_init/update/out stubbed at the link seam (out writes <= 64 bytes); exactly one static trust anchor (DN and key parts <= 8 bytes), optional dynamic anchor callback returning NULL or an anchor with a 64-byte hashed DN; irsa/iecdsa/itime = contract stubs or NULL; <= 1 name element (8-byte buffer, well-formed 12-byte OID); server_name NULL or <= 7 characters; context invariant (assumed before, checked after every native): cert_sig_len <= sizeof cert_sig, cert_sig_hash_len <= 64, cert_sig_hash_oid + 64 <= sizeof t0_datablock, EE key pointers inside ee_pkey_data; EE key parts <= 12 bytes when compared with an anchor",
+  "x509_decoder: append_dn/append_in = NULL or a stub that only reads the region it is given; pem: dest = NULL or a stub that only reads; invariant ptr < sizeof buf assumed before and checked after",
+  "handshake programs: br_ssl_engine_* (fail, flush_record, switch_*, compute_master, get_PRF, recvrec_finished, new_max_frag_len), br_hmac_drbg_generate (never yields a zero first byte), br_multihash_*, br_ccopy stubbed at the link seam; X.509 validator, client certificate handler, server policy and session cache classes, br_ec_impl (parameters <= 8 bytes, first byte non-zero), RSA/ECDSA functions = contract stubs; certificate chain <= 2 certificates of <= 8 bytes; <= 2 ALPN names of <= 5 characters; server name <= 15 characters; peer RSA modulus 8 bytes (refused) or 64 bytes (accepted), EC point <= 8 bytes; engine invariants ecdhe_point_len <= 133, session_id_len <= 32, ecdhe_key_len <= 70, hash_CV_len <= 64, hash_CV_id and sign_hash_id well-formed",
+  "string functions inside natives are abstracted: region checks (inside the object, inside the context field the region starts in); the destination is left at its unconstrained pre-state value",
  ],
  "outside_claim": [
-  "whole-decoder runs on long inputs (T0-level loops, open-elt/close-elt accounting): only the natives and the stack discipline are covered",
-  "T0 logic of the TLS handshake (message order, length checks written in T0)",
-  "hbuf == NULL before the first push",
-  "ECDSA signature converters (C11), engine record gate (C06), record layers (C02/C16/C20)",
+  "whole-decoder runs on long inputs (T0-level loops, open-elt/close-elt accounting): only the natives, the stack discipline and the literal capacities are covered",
+  "T0 logic of the TLS handshake (message order, length checks written in T0): the stated call-site preconditions above rest on it",
+  "hbuf == NULL before the first push; RSA moduli other than 8/64 bytes in do-rsa-encrypt",
+  "ECDSA signature converters (C11), RSA public operations (C10), engine record gate (C06), record layers (C02/C16/C20)",
  ],
- "mutants_tried": [],
+ "mutants_tried": [
+  "CAUGHT pemdec.c write8: flush test `ptr == sizeof buf` -> `>` -> nat-pem-28-write8 (invariant ptr < sizeof buf) VIOLATION; also stopped by UBSan inside e2-validation-pem",
+  "CAUGHT bearssl_x509.h: ee_pkey_data[BR_X509_BUFSIZE_KEY - 8] -> nat-x509min-29-copy_ee_ec_pkey, nat-x509min-30-copy_ee_rsa_pkey (string-function region leaves the field)",
+  "CAUGHT x509_minimal.c copy-name-element: `len < ne->len` -> `<=` -> nat-x509min-32-copy_name_element (ne->buf[len] out of bounds)",
+  "CAUGHT bearssl_x509.h: br_x509_minimal_context.dp_stack[31] -> [16] -> e4-stack-x509min FAIL (max data depth 17 > 16); also UBSan inside e2-validation-x509min",
+  "FLAGGED (exit 2) pkey_decoder.c read8-low: extra T0_PUSH(0) on one path -> e4-stack-pkey INCONCLUSIVE (stack effect of read8-low not constant: program not covered)",
+  "CAUGHT x509_decoder.c read-blob-inner: clamp of clen to len removed -> nat-x509dec-33-read_blob_inner VIOLATION",
+  "CAUGHT bearssl_x509.h: br_skey_decoder_context.key_data shrunk by 16 bytes -> nat-skey-26-read_blob_inner, nat-skey-30-set_rsa_key, nat-skey-31-set8 VIOLATION, literal-capacity-skey FAIL",
+  "CAUGHT tree before c33642a (push functions without the err test): pushgate-pkey/-skey/-x509dec VIOLATION, e4-stack-*-resume-after-fail FAIL with native demonstration (findings/C05_push_after_error_demo.c)",
+ ],
 }
 
 
@@ -49,7 +59,7 @@ def _selected():
 UNWIND = 14
 HARNESS_LOOPS = t0tool.HARNESS_LOOPS
 HEAVY = set()      # (program, native) pairs that get a cheaper quick variant and a full thorough one
-SPECIAL_UNWIND = {"strlen": 260, "verify-SKE-sig": 50, "verify-CV-sig": 50}
+SPECIAL_UNWIND = {"strlen": 20, "verify-SKE-sig": 50, "verify-CV-sig": 50}
 
 
 def queries():
@@ -160,6 +170,8 @@ def extra_checks(tier, repo, builddir):
               "native_effects_proved_by_cbmc": nproved, "words": len(p.words), "code_bytes": len(p.code),
               "N_dp": p.ndp, "N_rp": p.nrp, "max_data_depth": r.get("max_data_depth"), "min_data_depth": r.get("min_data_depth"),
               "max_return_depth": r.get("max_return_depth"), "recursion": r["recursion"], "value_dependent_sites": r["value_dependent_sites"],
+              "value_dependent_natives": {n.name: t0tool.literal_top_sets(p).get(n.op, "NOT a literal at every call site")
+                                          for n in p.natives.values() if "T0_PICK(" in n.body or "T0_ROLL(" in n.body},
               "wall_s": round(time.time() - t0, 1)}
         desc = ("E4 stack-effect system of %s: depth equations over the decoded bytecode CFG (%d words, %d natives, effects proved by CBMC), "
                 "z3: satisfiable (depth is a function of the instruction) and 'max data depth > %d or < 0, or max return depth > %d' unsatisfiable; "
